@@ -433,12 +433,33 @@ def rule_aug(ctx):
 def rule_memo(ctx):
     rep = ctx.report
     dbc = ctx.repo.cls('database.Database')
-    init = dbc.own('__init__').node
-    ok = any(isinstance(n, ast.Assign) and A.is_self_attr(n.targets[0], '_dataset_weak_ref_dict')
-             and isinstance(n.value, ast.Call) and (A.dotted(n.value.func) or '').endswith('WeakValueDictionary')
-             for n in A.walk_local(init))
-    rep.ob('MEMO', 'database.Database.__init__::memo-is-weak', ok, init,
-           '' if ok else 'the dataset memo must be a weakref.WeakValueDictionary (a strong dict keeps every dataset alive)')
+    # the memo belongs to one database: created on the instance in a constructor of the hierarchy; a class-level
+    # container is shared by every database object (and every subclass), keyed by dataset name only
+    shared = []
+    for c in ctx.repo.module('database').classes.values():
+        if dbc in c.mro:
+            for st in c.node.body:
+                if isinstance(st, (ast.Assign, ast.AnnAssign)) and isinstance(getattr(st, 'value', None), (ast.Call, ast.Dict, ast.List, ast.Set)):
+                    tg = st.targets[0] if isinstance(st, ast.Assign) else st.target
+                    if isinstance(tg, ast.Name) and ('weak' in tg.id or 'cache' in tg.id or 'memo' in tg.id or isinstance(st.value, (ast.Dict, ast.List, ast.Set))
+                                                     or (A.dotted(st.value.func) or '').split('.')[-1] in ('WeakValueDictionary', 'dict', 'list', 'set', 'defaultdict', 'OrderedDict')):
+                        shared.append((c, tg.id, st))
+    rep.ob('MEMO', 'database.Database::no-container-shared-between-database-objects', not shared,
+           shared[0][2] if shared else dbc.node,
+           '' if not shared else '%s.%s is a class attribute holding a mutable container: it is shared by all database objects, so a '
+           'dataset built by one database is served by another one for the same name' % (shared[0][0].name, shared[0][1]))
+    im = dbc.own('__init__')
+    if im is None:
+        rep.ob('MEMO', 'database.Database.__init__::memo-is-weak', False, dbc.node,
+               'Database has no constructor that creates the per-object dataset memo')
+        init = None
+    else:
+        init = im.node
+        ok = any(isinstance(n, ast.Assign) and A.is_self_attr(n.targets[0], '_dataset_weak_ref_dict')
+                 and isinstance(n.value, ast.Call) and (A.dotted(n.value.func) or '').endswith('WeakValueDictionary')
+                 for n in A.walk_local(init))
+        rep.ob('MEMO', 'database.Database.__init__::memo-is-weak', ok, init,
+               '' if ok else 'the dataset memo must be a weakref.WeakValueDictionary (a strong dict keeps every dataset alive)')
     gd = dbc.own('_get_dataset').node
     lookup = store = build = None
     for n in A.walk_local(gd):
